@@ -1,3 +1,84 @@
-From Verif Require Import Base Bcast.
-Theorem placeholder : True. Proof. exact I. Qed.
-Print Assumptions placeholder.
+(* C19 — the publish/receive utility hands each value to one waiter and is safe to race.
+   Only statements, each closed by [exact] of a lemma proved in BcastProofs.v. *)
+From Verif Require Import Base Bcast BcastProofs.
+
+(* No schedule of any client programs (any number of threads, keys, contexts; publish, receive,
+   free, close, cancel in any order and repetition) crashes the broadcaster. *)
+Theorem bc_no_crash :
+  forall progs s, reachable fixed progs s -> crashed s = false.
+Proof. exact bc_no_crash_lemma. Qed.
+Print Assumptions bc_no_crash.
+
+(* A publish that has not returned is parked for a reason: its key is still registered (not freed,
+   broadcaster not closed, the registering context not done) and no receiver is waiting on it.
+   Contrapositive: once the value can be delivered, or the key is freed, its context done or the
+   broadcaster closed, Publish is not blocked. *)
+Theorem bc_publish_returns :
+  forall progs s t th k e x p,
+    reachable fixed progs s -> nth_error (thr s) t = Some th -> pc th = PubBlocked k e x p ->
+    entry_done s e = false /\
+    (forall t' th' k' c, nth_error (thr s) t' = Some th' -> pc th' <> RecvBlocked k' e c).
+Proof. exact bc_publish_blocked_only_if_nothing_applies. Qed.
+Print Assumptions bc_publish_returns.
+
+(* ... and immediately (in its first step) for unknown keys and closed broadcasters, in any state
+   of either variant. *)
+Theorem bc_publish_unknown_immediate :
+  forall v s t th k x rest,
+    crashed s = false -> nth_error (thr s) t = Some th -> pc th = Idle -> todo th = Publish k x :: rest ->
+    closed s = true \/ lookupN k (tbl s) = None ->
+    exists s', bstep v s t 0 = Some s' /\
+               exists th', nth_error (thr s') t = Some th' /\ pc th' = Idle /\ todo th' = rest /\
+                           results th' = RPubNone :: results th.
+Proof. exact bc_publish_unknown_returns_immediately. Qed.
+Print Assumptions bc_publish_unknown_immediate.
+
+(* A receive function that has not returned is parked for a reason: its context is not done, its
+   key has not been freed, the broadcaster is not closed, and no publisher is waiting on its key. *)
+Theorem bc_receive_returns :
+  forall progs s t th k e c,
+    reachable fixed progs s -> nth_error (thr s) t = Some th -> pc th = RecvBlocked k e c ->
+    memN c (cancelled s) = false /\ entry_done s e = false /\
+    (forall t' th' k' x p, nth_error (thr s) t' = Some th' -> pc th' <> PubBlocked k' e x p).
+Proof. exact bc_receive_blocked_only_if_nothing_applies. Qed.
+Print Assumptions bc_receive_returns.
+
+(* Free, Close and Cancel complete in one step in every non-crashed state: they can be called
+   concurrently and repeatedly, in any order, without blocking. *)
+Theorem bc_admin_never_blocks :
+  forall v s t th op rest,
+    crashed s = false -> nth_error (thr s) t = Some th -> pc th = Idle -> todo th = op :: rest ->
+    is_admin op = true ->
+    exists s', bstep v s t 0 = Some s' /\
+               exists th', nth_error (thr s') t = Some th' /\ pc th' = Idle /\ todo th' = rest /\
+                           results th' = RUnit :: results th.
+Proof. exact bc_admin_ops_always_complete. Qed.
+Print Assumptions bc_admin_never_blocks.
+
+(* The tree as found (variant [legacy]: Free/Close also close the channel) does crash: the
+   schedule  Receive ; Publish up to its lookup ; Free ; Publish's select (send case)  —
+   replayed on the real code by corpus/bcast/d1-*.json on every run. *)
+Theorem D1_refuted :
+  exists progs cs s, run legacy (init progs) cs = Some s /\ crashed s = true.
+Proof.
+  exists [[Receive 1%N 1%N]; [Publish 1%N 7%N]; [Free 1%N]], [(0, 0); (1, 0); (2, 0); (1, 1)].
+  eexists. split; [vm_compute; reflexivity|reflexivity].
+Qed.
+Print Assumptions D1_refuted.
+
+(* Non-vacuity: the hypotheses of bc_publish_returns / bc_receive_returns are met by reachable states. *)
+Example blocked_publisher_reachable :
+  exists s th, reachable fixed [[Receive 1%N 1%N]; [Publish 1%N 7%N]] s /\
+               nth_error (thr s) 1 = Some th /\ pc th = PubBlocked 1%N 0 7%N 0.
+Proof.
+  eexists. eexists. split; [exists [(0, 0); (1, 0); (1, 0)]; vm_compute; reflexivity|].
+  split; reflexivity.
+Qed.
+
+Example blocked_receiver_reachable :
+  exists s th, reachable fixed [[Receive 1%N 1%N; RunRecv 0]] s /\
+               nth_error (thr s) 0 = Some th /\ pc th = RecvBlocked 1%N 0 1%N.
+Proof.
+  eexists. eexists. split; [exists [(0, 0); (0, 0)]; vm_compute; reflexivity|].
+  split; reflexivity.
+Qed.
